@@ -904,9 +904,16 @@ def report_c04(res, impl, design, text, how, combo, rng_seed, pr):
                 out.append((sig, lambda c, neut=neut: (neut(c[0]), c[1], c[2])))
         if h == "flatten" and not esc:
             out.append((K.SIG_C04_FLATNAME, lambda c: (c[0], c[1], True)))
-        if h == "clone":
+        if h == "clone" and clone_defect(d):
             out.append((K.SIG_C04_CLONE, lambda c: (c[0], "none", c[2])))
         return out
+
+    def clone_defect(d):
+        """the clone's top instance references a definition outside the clone (the condition of that finding)"""
+        try:
+            return top_external(impl.parse(G.render(d, None)).clone())
+        except Exception:                                     # noqa: BLE001
+            return False
 
     def full(cfg):
         for _ in range(3):
@@ -927,8 +934,26 @@ def report_c04(res, impl, design, text, how, combo, rng_seed, pr):
         if single:
             return single
         if ns and not run(full(cfg)):
-            return [sig for sig, _ in ns]
+            # several findings together: keep those without whose neutralisation the case still fails
+            need = []
+            for sig, f in ns:
+                c2 = cfg
+                for sig2, f2 in ns:
+                    if sig2 != sig:
+                        c2 = f2(c2)
+                if run(full_except(c2, sig)):
+                    need.append(sig)
+            return need or [sig for sig, _ in ns]
         return None
+
+    def full_except(cfg, skip):
+        for _ in range(3):
+            ns = [(s_, f) for (s_, f) in neutralisers(cfg) if s_ != skip]
+            if not ns:
+                break
+            for _, f in ns:
+                cfg = f(cfg)
+        return cfg
     def shapes(cfg):
         import verilog_view as V
         d, h, esc = cfg
